@@ -1003,7 +1003,7 @@ func init() {
 			"invalid members), documents, enums and regex types; random histories of 2..12 public operations and ALL histories of length ≤ 3 over six 3-object pools; each result (verdict, code, position, error type, " +
 			"AST, example bytes, used types, lexeme list) is compared with the same single operation on freshly constructed objects, and every value handed out is snapshotted and re-compared after every later operation. " +
 			"Map order: generated families (type graphs, rule-free shapes, scalar rule sets, several faulty types at once) with 8 documents each, all results compared across forced iteration orders in a build rewritten from the current tree, " +
-			"and across 20 repetitions under Go's own randomisation. Non-trivial = a history that touches some object or family at least twice (exhaustive ones distinct by construction), or a distinct map-order case.",
+			"and across 20 repetitions under Go's own randomisation. Non-trivial = a history that touches some object or family at least twice (exhaustive ones distinct by construction), or a distinct map-order case. Validate also runs on the pooled Document OBJECT (pooled_doc); a hash of the error text is part of every compared result (library against library).",
 		Assumptions: []string{
 			"operations are issued on root schemas, documents, enums and regex objects; a user-type object that was handed to AddType is not operated on directly afterwards (compilation of a root rewrites its added types in place by design)",
 			"a Document is a cursor: Validate gets a new Document each time; Drain/NextLexeme are compared only when the cursor was never moved by NextLexeme before (Check/Len must leave it at the start)",
